@@ -222,12 +222,32 @@ def verdict(markup, kwargs=None):
         return "escapes " + proto_name(type(e))
 
 
-def injection_matrix(classes=None):
-    """[(point, class, verdict)] on the scenario documents"""
+def hooked(point, doc=None):
+    """Does the patch for `point` take in this working tree, i.e. is the patched name really what the code calls on the scenario
+    document? (An import-style refactoring, e.g. `from warnings import warn`, would leave the hook dangling.)"""
+    n = [0]
+
+    def on_call(pt, thunk, after=False):
+        n[0] += 1
+        return thunk()
+    try:
+        with patched(point, on_call):
+            verdict(scenario(point) if doc is None else doc)
+    except Exception:  # noqa
+        return False
+    return n[0] > 0
+
+
+def hooked_points():
+    return [pt for pt in POINTS if hooked(pt)]
+
+
+def injection_matrix(classes=None, points=None):
+    """[(point, class, verdict)] on the scenario documents, for the points whose hook takes"""
     table = class_table()
     classes = classes or (list(table.values()) + [HarnessError, HarnessBaseError])
     rows = []
-    for pt in POINTS:
+    for pt in (points if points is not None else hooked_points()):
         for cls in classes:
             with inject(pt, cls):
                 v = verdict(scenario(pt))
@@ -256,5 +276,8 @@ def record(seen):
             raise
     with contextlib.ExitStack() as st:
         for pt in RECORD_POINTS:
-            st.enter_context(patched(pt, on_call))
+            try:
+                st.enter_context(patched(pt, on_call))
+            except Exception:  # noqa: a name the hook needs is gone in this tree: that primitive is not recorded on this run
+                seen.setdefault("unpatchable", set()).add(type(pt))
         yield seen
